@@ -1,6 +1,8 @@
-//! C18: channels.  ops: {"on": {id,type,state,tag,key,uses}} | {"close": id} | {"unsub": id} | {"run": n}.
-//! A run starts the fixed workflow and answers every interrupt act; every emitted message is
-//! printed with the fields a channel looks at, every handler invocation with (channel, message id).
+//! C18: channels.  ops: {"on": {id,h,type,state,tag,key,uses}} | {"close": id} | {"unsub": id} | {"run": n}.
+//! `h` is the kind of handler registered: message (default) | start | complete | error.
+//! A run starts the fixed workflow and answers every interrupt act (run 2: the first one with an error);
+//! every emitted message / process event is printed with the fields a channel looks at (E / ES / EC / EE), every
+//! handler invocation with (kind, channel, message id) (H / HS / HC / HE).
 use acts::{ChannelOptions, EngineBuilder, Vars, Workflow};
 use serde_json::{Value, json};
 use std::collections::HashMap;
@@ -36,7 +38,21 @@ async fn run(cases: &str, out: &str, workdir: &str) {
             {"id": "s2", "acts": [{"id": "a3", "key": "ac", "tag": "tb", "uses": "acts.core.irq"}]}]});
         let wf = Workflow::from_json(&wfj.to_string()).unwrap();
         ex.model().deploy(&wf).unwrap();
-        let hits: Arc<Mutex<Vec<(String, String)>>> = Arc::new(Mutex::new(Vec::new()));
+        let hits: Arc<Mutex<Vec<(String, String, String)>>> = Arc::new(Mutex::new(Vec::new()));
+        // the process events themselves, seen by a channel that is never closed
+        let events: Arc<Mutex<Vec<(String, Value)>>> = Arc::new(Mutex::new(Vec::new()));
+        let obs = engine.channel_with_options(&ChannelOptions { id: "zz-obs".to_string(), ..Default::default() });
+        for kind in ["S", "C", "E"] {
+            let events = events.clone();
+            let f = move |e: &acts::Event<acts::Message>| {
+                events.lock().unwrap().push((kind.to_string(), json!({"id": e.id, "type": e.r#type, "state": e.state.as_ref(), "tag": e.tag, "model_tag": e.model.tag, "key": e.key, "uses": e.uses})));
+            };
+            match kind {
+                "S" => obs.on_start(f),
+                "C" => obs.on_complete(f),
+                _ => obs.on_error(f),
+            }
+        }
         let mut chans: HashMap<String, Arc<acts::Channel>> = HashMap::new();
         let mut nrun = 0;
         for op in v["ops"].as_array().unwrap() {
@@ -53,9 +69,21 @@ async fn run(cases: &str, out: &str, workdir: &str) {
                 });
                 let hits = hits.clone();
                 let cid2 = id.clone();
-                chan.on_message(move |e| {
-                    hits.lock().unwrap().push((cid2.clone(), e.id.clone()));
-                });
+                let kind = match o["h"].as_str().unwrap_or("message") {
+                    "start" => "S",
+                    "complete" => "C",
+                    "error" => "E",
+                    _ => "",
+                };
+                let f = move |e: &acts::Event<acts::Message>| {
+                    hits.lock().unwrap().push((kind.to_string(), cid2.clone(), e.id.clone()));
+                };
+                match kind {
+                    "S" => chan.on_start(f),
+                    "C" => chan.on_complete(f),
+                    "E" => chan.on_error(f),
+                    _ => chan.on_message(f),
+                }
                 chans.insert(id, chan);
             } else if let Some(id) = op.get("close") {
                 if let Some(c) = chans.get(id.as_str().unwrap()) {
@@ -63,7 +91,9 @@ async fn run(cases: &str, out: &str, workdir: &str) {
                 }
             } else if let Some(id) = op.get("unsub") {
                 let _ = ex.msg().unsub(id.as_str().unwrap());
-            } else if op.get("run").is_some() {
+            } else if let Some(mode) = op.get("run") {
+                let fail = mode.as_i64() == Some(2);
+                let mut failed = false;
                 nrun += 1;
                 let pid = format!("p-{cid}-{nrun}");
                 let mut vars = Vars::new();
@@ -71,6 +101,7 @@ async fn run(cases: &str, out: &str, workdir: &str) {
                 quiesce().await;
                 acts::verif::take_log();
                 hits.lock().unwrap().clear();
+                events.lock().unwrap().clear();
                 ex.proc().start(&wf.id, &vars).unwrap();
                 for _ in 0..6 {
                     quiesce().await;
@@ -79,7 +110,14 @@ async fn run(cases: &str, out: &str, workdir: &str) {
                         break;
                     }
                     for tid in open {
-                        let _ = ex.act().complete(&pid, &tid, &Vars::new());
+                        if fail && !failed {
+                            failed = true;
+                            let mut o = Vars::new();
+                            o.set("ecode", "e1".to_string());
+                            let _ = ex.act().error(&pid, &tid, &o);
+                        } else {
+                            let _ = ex.act().complete(&pid, &tid, &Vars::new());
+                        }
                     }
                 }
                 quiesce().await;
@@ -91,8 +129,11 @@ async fn run(cases: &str, out: &str, workdir: &str) {
                         writeln!(w, "case {cid}: E {}", json!({"id": m["id"], "type": m["type"], "state": m["state"], "tag": m["tag"], "model_tag": m["model"]["tag"], "key": m["key"], "uses": m["uses"]})).unwrap();
                     }
                 }
-                for (c, mid) in hits.lock().unwrap().iter() {
-                    writeln!(w, "case {cid}: H {c} {mid}").unwrap();
+                for (k, m) in events.lock().unwrap().iter() {
+                    writeln!(w, "case {cid}: E{k} {m}").unwrap();
+                }
+                for (k, c, mid) in hits.lock().unwrap().iter() {
+                    writeln!(w, "case {cid}: H{k} {c} {mid}").unwrap();
                 }
             }
         }
